@@ -131,9 +131,22 @@ def random_text(r):
     return ''.join(r.choice(alphabet) for _ in range(n))
 
 
+HOSTILE_FRAGMENTS = ['"\\u{FFFFFFFFFFFF}"', '"\\u{110000}"', '"\\u{d800}"', "'\\u{e9}'", '"\\x4"', '"\\q"', "''", "'ab'", '"abc', "'a", '0x', '0b2', '1_', '1__0',
+                     '@if', '!', '@', '!!x', '??', '? ?', '$', '#', '`', '\\', '"\\', '//', '/* */', '\x00', '\ufeff', '[', ']', '{', '}', '(', ')',
+                     'is is', 'is empty', 'empty x', 'const', 'const const int x = 1;', 'int[] [] a', 'a[', 'f(', '[1,', '.length', '. length', 'x.y',
+                     's[0] = 1', '[f()]', '[[1]]', '[]', '[].length', '[][0]', '"s"[0]', '"s".length', '(1).length', '1[0]', 'write(write(1))',
+                     'return return', 'break', 'preempt {}', 'try {} undo {}', 'try {}', 'undo {}', 'stop {}', 'else {}', 'if () {}', 'while () {}',
+                     'for (;;) {}', 'for (;;;) {}', 'for (int i = 0) {}', '@is_you()', '!is_defeat()', '!truth_is_defeat()', 'all_is_win', 'int x[ -1 ];',
+                     'int x[1][2];', 'int[] x[3];', 'const int x[3];', 'x = = 1', 'x +=+ 1', 'x ++', '1 +', '+ + + 1', 'not', 'not not', 'a ?? b ?? c',
+                     'int @x = 1;', 'int !x = 1;', 'empty @f() {} empty @f() {}', 'empty @is_you(bool b) {}', 'empty @is_you(int[] a, int[] b) {}',
+                     'empty @is_you(string[] s) {}', 'int @is_you() { return 1; }']
+
+
 def token_soup(r, wrapped):
     toks = []
-    for _ in range(r.randint(1, 25)):
+    if r.random() < 0.5:
+        toks = [r.choice(HOSTILE_FRAGMENTS) for _ in range(r.randint(1, 3))]
+    for _ in range(r.randint(0 if toks else 1, 25 if not toks else 6)):
         c = r.random()
         if c < 0.4:
             toks.append(r.choice(R.SYMBOLS))
@@ -162,7 +175,7 @@ def mutate(r, src):
     if k < 0.5:
         return src[:i] + src[i:j] * 2 + src[j:]
     if k < 0.7:
-        return src[:i] + r.choice(list('{}()[];=+-*/%<>!?@"\'\\,.') + [' ', '\n', 'try', 'stop', 'undo', 'preempt', 'const', 'empty', 'is', '??', '0', 'x']) + src[j:]
+        return src[:i] + r.choice(list('{}()[];=+-*/%<>!?@"\'\\,.') + [' ', '\n', 'try', 'stop', 'undo', 'preempt', 'const', 'empty', 'is', '??', '0', 'x'] + HOSTILE_FRAGMENTS) + src[j:]
     if k < 0.85:
         a, b = sorted((i, r.randrange(len(src))))
         return src[:a] + src[b:b + 5] + src[a + 5:b] + src[a:a + 5] + src[b + 5:]
